@@ -173,6 +173,7 @@ class C17(Property):
         opts += [(3, "pause"), (3, "resume"), (2, "stop")]
       if can_play:
         opts += [(3, "play")]
+      opts += [(1, "play_bad")]
       if not any(op[0] == "record" for op in script):
         opts += [(1, "record")]
       elif W.chance("rectake", 1, 2):
@@ -180,6 +181,8 @@ class C17(Property):
       op = W.weighted("op", opts)
       if op == "play":
         new_player()
+      elif op == "play_bad":
+        script.append(["play_bad", W.pick("bad", ["dfmt", "kw"])])
       elif op == "idle":
         script.append(["idle", W.pick("idlek", [1, 3, 10, 50])])
       elif op == "record":
@@ -476,6 +479,19 @@ class C17(Property):
         burst += 1
         if burst == 3:
           res.counters["fault.control-burst"] += 1
+        if name == "play_bad":
+          # a play() call that is refused: unknown sample format or a value
+          # the backend rejects.  It must raise and change nothing else.
+          before = len(world.history)
+          try:
+            if op[1] == "dfmt":
+              aio.play([0., 0.], dfmt="d")        # not a PyAudio format
+            else:
+              aio.play([0., 0.], chunk_size=1, reject_me=True)
+            outcome["bad_play_accepted"] = True
+          except Exception:
+            res.counters["probe.play-refused-with-bad-arguments"] += 1
+          continue
         if name == "play":
           spec = op[1]
           p = len(ctl["players"])
@@ -593,11 +609,13 @@ class C17(Property):
         outcome["close2_events"] = len(world.history) - before
       if workload["after"].get("play_after"):
         before = len(world.history)
-        try:
-          aio.play([0.0, 0.0], chunk_size=1)
-          outcome["play_after"] = "accepted"
-        except Exception as exc:
-          outcome["play_after"] = "raised"
+        outcome["play_after"] = "raised"
+        for _ in range(2):            # and again: it must keep raising
+          try:
+            aio.play([0.0, 0.0], chunk_size=1)
+            outcome["play_after"] = "accepted"
+          except Exception as exc:
+            pass
         outcome["play_after_events"] = len(world.history) - before
       return True
 
@@ -707,6 +725,8 @@ class C17(Property):
                       sp["channels"], sp["dfmt"]))
       elif op[0] in ("pause", "resume", "stop"):
         out.append("%s(player%d)" % (op[0], op[1]))
+      elif op[0] == "play_bad":
+        out.append("play(<bad %s>) -> must raise" % op[1])
       else:
         out.append("%s(%r)" % (op[0], op[1]))
     out.append({"close": "close()", "terminate": "terminate()",
